@@ -412,3 +412,4 @@ func vh_C02_L8_skip_never_covers_reliable_data()      { vh_C07_L2_advance_only_o
 func vh_C02_L9_ack_timer_callback_unlocked()   { vh_C19_L6_ack_timer_interleavings() }
 func vh_C02_L9_ordered_reassembly_any_ssn()    { vh_C01_L5_ordered_reassembly() }
 func vh_C02_L9_timer_loop_callbacks_unlocked() { vh_C20_L6_timer_loop_fires_callbacks_unlocked() }
+func vh_C02_L9_skip_clears_exactly_its_range() { vh_C05_step_clear_range() }
